@@ -242,6 +242,12 @@ def entry_variants(sio, case, data, T, rec):
             out["gut_sorted_unique"] = (g == sorted(set(g)))
             g2 = sio.get_untrusted_types(file=str(f))
             out["gut_file_str"] = "ok:" + ",".join(g2)
+            # the caller owns the returned list: editing it must not influence later audits of the same bytes
+            g3 = sio.get_untrusted_types(data=data)
+            g3.append("zz.injected")
+            g3.reverse()
+            g4 = sio.get_untrusted_types(data=data)
+            out["gut_after_caller_edit"] = "ok:" + ",".join(g4)
         except Exception as e:
             out["gut_file"] = out["gut_file_str"] = "err:" + exc_enum(e)
             out["gut_sorted_unique"] = True
@@ -285,6 +291,10 @@ def mode_inspect(cases):
                 obj = sio.loads(data, trusted=T)
                 rec["load"] = "returned"
                 rec["load_type"] = f"{type(obj).__module__}.{type(obj).__qualname__}"
+                import types as _t
+                import numpy as _np
+                # a type / function / ufunc handed back is judged by the name it was resolved under, not by type(obj)
+                rec["load_named_object"] = isinstance(obj, (type, _t.FunctionType, _t.BuiltinFunctionType, _np.ufunc))
             except BaseException as e:  # noqa
                 if not isinstance(e, Exception):
                     rec["load"] = "BASEEXC:" + type(e).__name__
@@ -445,6 +455,79 @@ def mode_inert(req_cases):
 
 
 MODES["inert"] = mode_inert
+def mode_robust(req_cases):
+    """C19: each archive (given as schema+members, or as hex bytes) goes through load / get_untrusted_types / visualize
+    under an alarm; afterwards process-wide state must be what it was and no file may have appeared."""
+    import hashlib
+    import signal
+    import sys
+    import numpy as np
+    cfg, cases = req_cases[0], req_cases[1:]
+    sys.path.insert(0, CANARY_DIR)
+    import skops.io as sio
+    scratch = Path(cfg["scratch"]) / f"w{os.getpid()}"
+    scratch.mkdir(parents=True, exist_ok=True)
+    os.chdir(scratch)
+
+    class Hang(BaseException):
+        pass
+
+    def on_alarm(signum, frame):
+        raise Hang()
+    signal.signal(signal.SIGALRM, on_alarm)
+
+    def world():
+        return {"cwd": os.getcwd(), "env": hashlib.sha256(repr(sorted(os.environ.items())).encode()).hexdigest()[:12],
+                "sys.path": hashlib.sha256(repr(sys.path).encode()).hexdigest()[:12],
+                "np.random": hashlib.sha256(repr(np.random.get_state()[1][:8].tolist()).encode() + str(np.random.get_state()[2]).encode()).hexdigest()[:12],
+                "files": sorted(os.listdir(scratch)), "recursionlimit": sys.getrecursionlimit()}
+    out = []
+    for case in cases:
+        data = bytes.fromhex(case["hex"]) if "hex" in case else build_zip(case["schema"], case["members"])
+        before = world()
+        rec = {"calls": {}}
+
+        def call(name, fn):
+            import time
+            t0 = time.time()
+            signal.alarm(cfg.get("alarm", 20))
+            try:
+                fn()
+                r = "ok"
+            except Hang:
+                r = "HANG"
+            except Exception as e:
+                r = "exc:" + type(e).__name__
+            except BaseException as e:  # noqa
+                r = "BASEEXC:" + type(e).__name__
+            finally:
+                signal.alarm(0)
+            rec["calls"][name] = [r, round(time.time() - t0, 3)]
+        gut = []
+
+        def do_gut():
+            gut[:] = sio.get_untrusted_types(data=data)
+        call("get_untrusted_types", do_gut)
+        call("loads(None)", lambda: sio.loads(data, trusted=None))
+        call("loads(reported)", lambda: sio.loads(data, trusted=list(gut)))
+        buf = io.StringIO()
+
+        def do_vis():
+            with contextlib.redirect_stdout(buf):
+                sio.visualize(data)
+        call("visualize", do_vis)
+        after = world()
+        rec["changed"] = {k: [before[k], after[k]] for k in before if before[k] != after[k]}
+        if after["cwd"] != str(scratch):
+            os.chdir(scratch)
+        out.append(rec)
+    import shutil
+    os.chdir("/")
+    shutil.rmtree(scratch, ignore_errors=True)
+    return out
+
+
+MODES["robust"] = mode_robust
 MODES["universe"] = mode_universe
 MODES["inspect"] = mode_inspect
 MODES["resolve_table"] = mode_resolve_table
